@@ -312,3 +312,16 @@ Example elf_example :
   | _ => False
   end.
 Proof. vm_compute. reflexivity. Qed.
+
+(* ---- the provided Iterator methods: nth(k) is the k-th item of the run to exhaustion ---- *)
+Lemma elf_nth_collect fuel p m : forall it items k,
+  elf_collect fuel p m it = (items, Val tt) -> rmap fst (elf_nth p m it k) = Val (nth_error items k).
+Proof.
+  induction fuel as [|f IH]; intros it items k H; cbn [elf_collect] in H; [discriminate|].
+  destruct k as [|k']; cbn [elf_nth];
+    destruct (elf_next (elf_fuel it) p m it) as [[[s|] it']| | |]; try discriminate.
+  - destruct (elf_collect f p m it') as [l e]. injection H as <- ->. reflexivity.
+  - injection H as <-. reflexivity.
+  - destruct (elf_collect f p m it') as [l e] eqn:E. injection H as <- ->. cbn [nth_error]. apply (IH it' l k' E).
+  - injection H as <-. reflexivity.
+Qed.
